@@ -27,25 +27,67 @@ class Counter:
         return self.k
 
 
+# ------------------------------------------------------------------ optional spacing inside a line
+# statement texts are TEMPLATES: three marker characters stand for the places where Python allows
+# optional white space and where Reduino (on the unchanged tree) is insensitive to it:
+O1 = "\x01"   # optional, canonical form one blank   (around = += < > , binary operators)
+O0 = "\x02"   # optional, canonical form nothing     (inside call parentheses, before the header colon)
+M1 = "\x03"   # mandatory white space, canonical one blank (after a keyword)
+# Places that are NOT in the guard (listed findings): between a callee / method name and its "(",
+# around the "." of a method call, between if/elif/while and a parenthesised condition.
+
+
+def canon_spacing(t):
+    return t.replace(O1, " ").replace(O0, "").replace(M1, " ")
+
+
+def vary_spacing(rng, t, p=0.5):
+    out = []
+    for ch in t:
+        if ch == O1:
+            out.append(rng.choice(["", " ", "  "]) if rng.random() < p else " ")
+        elif ch == O0:
+            out.append(rng.choice([" ", "  "]) if rng.random() < p else "")
+        elif ch == M1:
+            out.append(rng.choice(["  ", "   ", " \t", "\t"]) if rng.random() < p else " ")
+        else:
+            out.append(ch)
+    return "".join(out)
+
+
 # ------------------------------------------------------------------ skeletons
+ALLOWED_IGNORED = ("pass", "print", "import", "from", "global", "doc")
+
+
 def gen_leaf(rng, cnt, fnames=(), in_func=False):
+    """-> ("leaf", template, meta); meta = ("mark", k) for a statement whose number k must show up in
+    the firmware, ("allowed", kind) for a line of the fixed set that may disappear, ("plain",)"""
     r = rng.random()
     k = cnt.next()
-    if r < 0.55:
-        return ("leaf", f"mon.write({k})")
+    if r < 0.40:
+        return ("leaf", f"mon.write({O0}{k}{O0})", ("mark", k))
+    if r < 0.47:
+        return ("leaf", f"mon.write({O0}\"s#{k}\"{O0})", ("mark", k))      # '#' inside a string literal
+    if r < 0.52:
+        return ("leaf", f"mon.write({O0}'q\\'#{k}'{O0})", ("mark", k))    # escaped quote, then '#', inside a literal
+    if r < 0.60:
+        return ("leaf", f"x{O1}={O1}{k}", ("mark", k))
     if r < 0.65:
-        return ("leaf", f"mon.write(\"s#{k}\")")            # '#' inside a string literal
-    if r < 0.70:
-        return ("leaf", f"mon.write('q\\'#{k}')")            # escaped quote, then '#', inside a literal
-    if r < 0.78:
-        return ("leaf", f"x = {k}")
-    if r < 0.84:
-        return ("leaf", f"x += {k % 7}")
-    if r < 0.90:
-        return ("leaf", f"sleep({k})")
-    if r < 0.95 or not fnames:
-        return ("leaf", rng.choice(["led.on()", "led.off()", "led.toggle()"]))
-    return ("leaf", f"{rng.choice(list(fnames))}()")
+        return ("leaf", f"x{O1}+={O1}{k % 7}", ("plain",))
+    if r < 0.69:
+        return ("leaf", f"x{O1}={O1}x{O1}+{O1}{k}", ("mark", k))
+    if r < 0.75:
+        return ("leaf", f"sleep({O0}{k}{O0})", ("mark", k))
+    if r < 0.79:
+        return ("leaf", f"led.set_brightness({O0}{k % 256}{O0})", ("plain",))
+    if r < 0.86:
+        return ("leaf", rng.choice(["led.on()", "led.off()", "led.toggle()", f"led.on({O0})"]), ("plain",))
+    if r < 0.96 or not fnames:
+        kind = rng.choice(["pass", "print", "print", "import", "from", "doc", "doc"])
+        text = {"pass": "pass", "print": f"print({O0}\"p{k}\"{O0})", "import": "import os",
+                "from": f"from{M1}math{M1}import{M1}sin", "doc": rng.choice([f'"""doc {k}"""', f"'note {k}'"])}[kind]
+        return ("leaf", text, ("allowed", kind))
+    return ("leaf", f"{rng.choice(list(fnames))}({O0})", ("plain",))
 
 
 def gen_body(rng, cnt, depth, maxdepth, fnames=(), n=None):
@@ -63,19 +105,19 @@ def gen_stmt(rng, cnt, depth, maxdepth, fnames=()):
     r = rng.random()
     k = cnt.next()
     if r < 0.45:
-        nodes = [("block", "if", f"if x > {k}:", gen_body(rng, cnt, depth + 1, maxdepth, fnames))]
+        nodes = [("block", "if", f"if{M1}x{O1}>{O1}{k}{O0}:", gen_body(rng, cnt, depth + 1, maxdepth, fnames))]
         for _ in range(rng.choice([0, 0, 1, 1, 2])):
-            nodes.append(("block", "elif", f"elif x > {cnt.next()}:", gen_body(rng, cnt, depth + 1, maxdepth, fnames)))
+            nodes.append(("block", "elif", f"elif{M1}x{O1}>{O1}{cnt.next()}{O0}:", gen_body(rng, cnt, depth + 1, maxdepth, fnames)))
         if rng.random() < 0.6:
-            nodes.append(("block", "else", "else:", gen_body(rng, cnt, depth + 1, maxdepth, fnames)))
+            nodes.append(("block", "else", f"else{O0}:", gen_body(rng, cnt, depth + 1, maxdepth, fnames)))
         return nodes
     if r < 0.65:
-        return [("block", "while", f"while x < {k}:", gen_body(rng, cnt, depth + 1, maxdepth, fnames) + [("leaf", "x += 1")])]
+        return [("block", "while", f"while{M1}x{O1}<{O1}{k}{O0}:", gen_body(rng, cnt, depth + 1, maxdepth, fnames) + [("leaf", f"x{O1}+={O1}1", ("plain",))])]
     if r < 0.88:
-        return [("block", "for", f"for i{depth} in range({k % 5 + 1}):", gen_body(rng, cnt, depth + 1, maxdepth, fnames))]
-    nodes = [("block", "try", "try:", gen_body(rng, cnt, depth + 1, maxdepth, fnames))]
+        return [("block", "for", f"for{M1}i{depth}{M1}in{M1}range({O0}{k % 5 + 1}{O0}){O0}:", gen_body(rng, cnt, depth + 1, maxdepth, fnames))]
+    nodes = [("block", "try", f"try{O0}:", gen_body(rng, cnt, depth + 1, maxdepth, fnames))]
     for i in range(rng.choice([1, 1, 2])):
-        h = rng.choice(["except Exception:", "except ValueError:", "except Exception as err:", "except:"]) if i == 0 else "except:"
+        h = rng.choice([f"except{M1}Exception{O0}:", f"except{M1}ValueError{O0}:", f"except{M1}Exception{M1}as{M1}err{O0}:", f"except{O0}:"]) if i == 0 else f"except{O0}:"
         nodes.append(("block", "except", h, gen_body(rng, cnt, depth + 1, maxdepth, fnames)))
     return nodes
 
@@ -83,30 +125,33 @@ def gen_stmt(rng, cnt, depth, maxdepth, fnames=()):
 def gen_program(rng, maxdepth=3, main_loop=None):
     """-> list of top items: ("chain",[nodes]) | ("main",h,body) | ("def",h,body)"""
     cnt = Counter()
-    tops = [("chain", [("leaf", s)]) for s in PRELUDE]
+    tops = [("imp", s) if s.startswith("from ") else ("chain", [("leaf", s, ("plain",))]) for s in PRELUDE]
     fnames = []
     for i in range(rng.choice([0, 0, 1, 2])):
         name = f"fn{i}"
-        tops.append(("def", f"def {name}():", gen_body(rng, cnt, 1, maxdepth)))
+        body = gen_body(rng, cnt, 1, maxdepth)
+        if rng.random() < 0.4:
+            body = [("leaf", f"global{M1}x", ("allowed", "global"))] + body
+        tops.append(("def", f"def{M1}{name}({O0}){O0}:", body))
         fnames.append(name)
     for _ in range(rng.randint(1, 4)):
         nodes = gen_stmt(rng, cnt, 0, maxdepth, fnames)
         tops.append(("chain", nodes))
     if main_loop if main_loop is not None else rng.random() < 0.75:
-        tops.append(("main", "while True:", gen_body(rng, cnt, 1, maxdepth, fnames, n=rng.randint(1, 4))))
+        tops.append(("main", f"while{M1}True{O0}:", gen_body(rng, cnt, 1, maxdepth, fnames, n=rng.randint(1, 4))))
     return tops
 
 
 def skeleton_size(tops):
     def sz(ns):
         return sum(1 + (sz(n[3]) if n[0] == "block" else 0) for n in ns)
-    return sum(sz(t[1]) if t[0] == "chain" else 1 + sz(t[2]) for t in tops)
+    return sum(sz(t[1]) if t[0] == "chain" else 1 if t[0] == "imp" else 1 + sz(t[2]) for t in tops)
 
 
 def skeleton_depth(tops):
     def dp(ns):
         return max([0] + [1 + dp(n[3]) for n in ns if n[0] == "block"])
-    return max([0] + [dp(t[1]) if t[0] == "chain" else 1 + dp(t[2]) for t in tops])
+    return max([0] + [dp(t[1]) if t[0] == "chain" else 0 if t[0] == "imp" else 1 + dp(t[2]) for t in tops])
 
 
 # ------------------------------------------------------------------ layouts
@@ -147,34 +192,65 @@ def trail(rng, allow_comment, density):
     return rng.choice(TRAIL_WS)
 
 
-def lay_node(rng, n, u, depth, top, density):
+def lay_node(rng, n, u, depth, top, density, sp):
     iw = indent_width(u)
     if n[0] == "leaf":
         bound = None if depth == 0 else (depth - 1) * iw
-        return ("leaf", junk_lines(rng, u, bound, density), n[1], trail(rng, True, density))
+        return ("leaf", junk_lines(rng, u, bound, density), vary_spacing(rng, n[1], sp), trail(rng, True, density))
     _, k, h, body = n
     bound = depth * iw if k in CONT else (None if depth == 0 else (depth - 1) * iw)
     allow = (k not in CONT) and not top
-    return ("block", junk_lines(rng, u, bound, density), k, h, trail(rng, allow, density),
-            [lay_node(rng, m, u, depth + 1, False, density) for m in body])
+    return ("block", junk_lines(rng, u, bound, density), k, vary_spacing(rng, h, sp), trail(rng, allow, density),
+            [lay_node(rng, m, u, depth + 1, False, density, sp) for m in body])
 
 
-def lay_program(rng, tops, u, density=0.35):
-    """a random layout INSIDE the guard of the skeleton `tops` for indentation unit u"""
+def lay_program(rng, tops, u, density=0.35, sp=0.0):
+    """a random layout INSIDE the guard of the skeleton `tops` for indentation unit u;
+    sp = probability of non-canonical optional spacing at each marked place"""
     out = []
     for t in tops:
         if t[0] == "chain":
-            out.append(("chain", [lay_node(rng, n, u, 0, True, density) for n in t[1]]))
+            out.append(("chain", [lay_node(rng, n, u, 0, True, density, sp) for n in t[1]]))
+        elif t[0] == "imp":
+            out.append(("imp", junk_lines(rng, u, None, density), t[1], trail(rng, False, density)))
         else:
-            out.append((t[0], junk_lines(rng, u, None, density), t[1], trail(rng, False, density),
-                        [lay_node(rng, m, u, 1, False, density) for m in t[2]]))
+            out.append((t[0], junk_lines(rng, u, None, density), vary_spacing(rng, t[1], sp), trail(rng, False, density),
+                        [lay_node(rng, m, u, 1, False, density, sp) for m in t[2]]))
     return out, junk_lines(rng, u, None, density)
 
 
 def canonical(tops):
     def c(n):
-        return ("leaf", [], n[1], "") if n[0] == "leaf" else ("block", [], n[1], n[2], "", [c(m) for m in n[3]])
-    return [("chain", [c(n) for n in t[1]]) if t[0] == "chain" else (t[0], [], t[1], "", [c(m) for m in t[2]]) for t in tops], []
+        if n[0] == "leaf":
+            return ("leaf", [], canon_spacing(n[1]), "")
+        return ("block", [], n[1], canon_spacing(n[2]), "", [c(m) for m in n[3]])
+    return [("chain", [c(n) for n in t[1]]) if t[0] == "chain" else ("imp", [], t[1], "") if t[0] == "imp"
+            else (t[0], [], canon_spacing(t[1]), "", [c(m) for m in t[2]]) for t in tops], []
+
+
+def skeleton_of_layout(ltops):
+    """the concrete skeleton (statement texts after the spacing choice) of a laid-out program"""
+    def c(n):
+        return ("leaf", n[2]) if n[0] == "leaf" else ("block", n[2], n[3], [c(m) for m in n[5]])
+    return [("chain", [c(n) for n in t[1]]) if t[0] == "chain" else (t[0], t[2], [c(m) for m in t[4]]) for t in ltops if t[0] != "imp"]
+
+
+def leaves(tops):
+    """all leaves of a skeleton with their context: (template, meta, where) where = top|nested"""
+    out = []
+
+    def walk(ns, where):
+        for n in ns:
+            if n[0] == "leaf":
+                out.append((n[1], n[2] if len(n) > 2 else ("plain",), where))
+            else:
+                walk(n[3], "nested")
+    for t in tops:
+        if t[0] == "chain":
+            walk(t[1], "top")
+        elif t[0] != "imp":
+            walk(t[2], "nested")
+    return out
 
 
 def render_node(n, u, d):
@@ -192,6 +268,8 @@ def render(ltops, final_junk, u):
         if t[0] == "chain":
             for n in t[1]:
                 out += render_node(n, u, 0)
+        elif t[0] == "imp":
+            out += list(t[1]) + [t[2] + t[3]]
         else:
             out += list(t[1]) + [t[2] + t[3]]
             for m in t[4]:
@@ -208,6 +286,8 @@ def enc_node(n):
 def enc_top(t):
     if t[0] == "chain":
         return [0, [enc_node(n) for n in t[1]]]
+    if t[0] == "imp":
+        return [3, list(t[1]), t[2], t[3]]
     return [1 if t[0] == "main" else 2, list(t[1]), t[2], t[3], [enc_node(m) for m in t[4]]]
 
 
